@@ -91,6 +91,7 @@ fn main() {
         "C09" => go(props::c09::C09, rest),
         "C18" => go(props::c18::C18, rest),
         "C19" => go(props::c19::C19, rest),
+        "C20" => go(props::c20::C20, rest),
         _ => {
             eprintln!("unknown property {}", id);
             2
